@@ -272,6 +272,7 @@ func TestC15(t *testing.T) {
 		"their own v1/v2 frame objects and one shared message value, the consumer forwarding and fixing received frames, a channel closing and re-opening, Close racing with everything) and the workloads " +
 		"of C10, C11, C12 (random-instant closes over all eleven endpoint kinds), C13, C14 (client / serial reconnect sequences, servers with many peers) and C16 re-run under the detector; several shards with different GOMAXPROCS. Two iterations out of three run with no hook installed (the hook's mutex would add happens-before edges between library goroutines and hide races from the detector); the others use hook perturbation. distinct = interleaving signatures of the hooked API-mix runs + configurations of the unhooked ones")
 	rep.RuleAdd("Also: links that end on their own (read error / EOF) after the node discarded items for them (overflow) or had writes fail on them, with no write after the last discarded item. Value copies of received signed frames fixed while the original is queued.")
+	rep.RuleAdd("Rounds 12-15: links that end after an overflow, edit-and-resend copies, 25 (thorough 120) lives of one node value under the race detector.")
 	rep.Assume("each goroutine uses its own frame objects (the API mutates the frame it is given); absence of reports on the schedules run is not absence of races")
 	seed := shardSeed()
 	shard, nsh := shardInfo()
